@@ -211,7 +211,10 @@ impl Prop for PExec {
             script.push(*rng.pick(&[0u64, 0, 0, 1, 2, 255]));
         }
         if self.flavour == "C09" {
-            let pieces: [&str; 10] = ["{}", "x{}y", "{}{}", "lit", "", "--", "{} {}", "a b", "{", "}{"];
+            // (also words that mean something to find itself when they stand in the expression: inside the action they
+            // are the command's arguments and nothing else)
+            let pieces: [&str; 23] = ["{}", "x{}y", "{}{}", "lit", "", "--", "{} {}", "a b", "{", "}{", "--help", "-help", "--version", "-version", "-print", "-o", "(", ")", "!", "-quit",
+                                      "-delete", "{}+", ","];
             let mut template = vec![];
             for _ in 0..rng.below(4) {
                 template.push(str_to_json(*rng.pick(&pieces)));
